@@ -20,6 +20,8 @@ var fieldPolicyOpts = []struct {
 	{"prepend", 4, ucfg.FieldPrependValues},
 }
 
+var c16OptPool = map[string]ucfg.Option{}
+
 type fieldSpec struct {
 	Path string `json:"path"`
 	Pol  int    `json:"pol"`
@@ -34,7 +36,15 @@ func c16Run(ta, tb map[string]interface{}, pol int, specs []fieldSpec) (Case, bo
 	var coqSpecs []string
 	for _, s := range specs {
 		f := fieldPolicyOpts[s.Pol]
-		opts = append(opts, f.mk(s.Path))
+		// an Option value is made once and used in every call that names the same policy and
+		// path: what one call does with it must not show in the next
+		key := fmt.Sprintf("%d|%s", s.Pol, s.Path)
+		o, ok := c16OptPool[key]
+		if !ok {
+			o = f.mk(s.Path)
+			c16OptPool[key] = o
+		}
+		opts = append(opts, o)
 		coqSpecs = append(coqSpecs, fmt.Sprintf("(%s, %d%%N)", coqStr(s.Path), f.h))
 	}
 	dst, err := ucfg.NewFrom(ta)
